@@ -396,6 +396,19 @@ pub fn expand_phase(rng: &mut Rng, p: &Phase, lg_k: u8, history: &[u32]) -> Vec<
 
 // ------------------------------------------------------------------------------------------------
 
+/// In sparse (list / set) mode a dump costs as much as the table is long. For lg_k <= 12 the state is compared
+/// after every operation; above, after each of the first 64 distinct coupons and then whenever the number of
+/// distinct coupons is within 2 of 2^j or 3 * 2^j (the sizes at which the list is promoted and the set grows or is
+/// promoted), and on a stride of 1/8 of the current count in between.
+fn sparse_observation_due(lg_k: u8, distinct: usize) -> bool {
+    if lg_k <= 12 || distinct <= 64 {
+        return true;
+    }
+    let near = |x: usize| distinct + 2 >= x && distinct <= x + 2;
+    let p = distinct.next_power_of_two();
+    near(p) || near(p / 2) || near(p / 4 * 3) || near(p / 8 * 3) || distinct % (p / 16).max(1) == 0
+}
+
 fn hook_case(ctx: &mut Ctx, case: &Json) {
     let lg_k = case.u64("lg_k").unwrap_or(4) as u8;
     let budget = case.u64("budget").unwrap_or(1000) as usize;
@@ -418,8 +431,12 @@ fn hook_case(ctx: &mut Ctx, case: &Json) {
                 history.push(c);
             }
             let sparse = trio.prev[0].as_ref().map(|p| p.mode < 2).unwrap_or(true);
-            if every_op || sparse {
-                trio.observe(ctx, &model, &format!("phase {} op {}", pi, ci), Some((c, novel)));
+            if every_op || (sparse && sparse_observation_due(lg_k, model.coupons.len())) {
+                // (the HIP increment law needs consecutive dumps: only when every operation is observed)
+                let single = if every_op || lg_k <= 12 { Some((c, novel)) } else { None };
+                trio.observe(ctx, &model, &format!("phase {} op {}", pi, ci), single);
+            } else if sparse {
+                // not observed
             } else if ci % stride == stride - 1 {
                 trio.observe(ctx, &model, &format!("phase {} op {}", pi, ci), None);
             }
@@ -507,8 +524,11 @@ fn public_case(ctx: &mut Ctx, case: &Json) {
         };
         let novel = model.offer(c);
         let sparse = trio.prev[0].as_ref().map(|p| p.mode < 2).unwrap_or(true);
-        if every_op || sparse {
-            trio.observe(ctx, &model, &format!("public op {}", i), Some((c, novel)));
+        if every_op || (sparse && sparse_observation_due(lg_k, model.coupons.len())) {
+            let single = if every_op || lg_k <= 12 { Some((c, novel)) } else { None };
+            trio.observe(ctx, &model, &format!("public op {}", i), single);
+        } else if sparse {
+            // not observed
         } else if i % stride == stride - 1 {
             trio.observe(ctx, &model, &format!("public op {}", i), None);
         }
@@ -577,9 +597,11 @@ pub fn run(ctx: &mut Ctx) {
             }
         }
     }
-    // big-k spot checks (thorough): lg_k 13..=21, checkpoints only
-    if !quick {
-        for lg_k in 13..=21u8 {
+    // big-k spot checks, checkpoints only: lg_k 13..=17 in the quick tier, 13..=21 in the thorough one (slot
+    // indices beyond 16 bits, aux tables beyond 2^8 entries)
+    {
+        let top = ctx.tier_pick(17u8, 21);
+        for lg_k in 13..=top {
             if (lg_k as usize - 13) % ctx.nshards != ctx.shard {
                 continue;
             }
@@ -587,14 +609,14 @@ pub fn run(ctx: &mut Ctx) {
             let case = Json::obj()
                 .set("lane", "hook")
                 .set("lg_k", lg_k)
-                .set("budget", (k * 5).min(12_000_000))
+                .set("budget", (k * ctx.tier_pick(3, 5)).min(12_000_000))
                 .set("every_op", false)
                 .set("seed", ctx.case_seed("hookbig", lg_k as u64));
             run_case(ctx, &case);
             let case = Json::obj()
                 .set("lane", "public")
                 .set("lg_k", lg_k)
-                .set("n", (k * 3).min(6_000_000))
+                .set("n", (k * ctx.tier_pick(1, 3)).min(6_000_000))
                 .set("every_op", false)
                 .set("seed", ctx.case_seed("publicbig", lg_k as u64));
             run_case(ctx, &case);
